@@ -185,8 +185,12 @@ func checkC19(w *World, r *Report) {
 			c := siteCall(s)
 			if c != nil && hasSuffixAny(callName(c.Common()), "types.Dec.MulInt64") {
 				if k, ok := stripConv(c.Common().Args[1]).(*ssa.Const); ok && k.Value != nil {
-					if n, _ := constant.Int64Val(constant.ToInt(k.Value)); n == int64(365*24*3600)*1e9 {
-						uses = true
+					// the year constant, in whatever unit the elapsed time is measured (ns, µs, ms, s)
+					n, _ := constant.Int64Val(constant.ToInt(k.Value))
+					for _, unit := range []int64{1e9, 1e6, 1e3, 1} {
+						if n == int64(365*24*3600)*unit {
+							uses = true
+						}
 					}
 				}
 			}
